@@ -400,7 +400,8 @@ namespace
                     out.violate("C18/corrupted-block", sim::fmt("bytes outside block #%llu were modified before it was freed", (unsigned long long)e.block));
                     break;
                 case EV_ALLOC_EINVAL:
-                    out.violate("C18/heap-contract(EINVAL)", sim::fmt("posix_memalign called with alignment %llu (not a power of two multiple of sizeof(void*))", (unsigned long long)e.align));
+                    out.violate("C18/heap-contract(EINVAL)", sim::fmt("a heap function was called outside its contract: alignment %llu, size %llu (posix_memalign needs a power-of-two multiple of sizeof(void*); aligned_alloc needs size to be a multiple of the alignment)",
+                                                                      (unsigned long long)e.align, (unsigned long long)e.size));
                     break;
                 case EV_ALLOC_FAIL_INJECTED:
                     ++ff_injected;
